@@ -8,6 +8,8 @@
 #include <time.h>
 #include <sys/socket.h>
 #include <netinet/in.h>
+#include <stdarg.h>
+#include <sys/timerfd.h>
 #include "vio.h"
 
 vio_q_t vio_net_in, vio_net_out, vio_can_in, vio_can_out, vio_std_out;
@@ -50,8 +52,35 @@ ssize_t vf_sendto(int fd, const void* buf, size_t len, int flags, const struct s
     vio_push(&vio_net_out, buf, len);
     return (ssize_t)len;
 }
+/* ---- virtual timerfd: fires when the network queue is dry ---- */
+static int timer_armed, timer_periodic, timer_budget = 3;
+int vf_timerfd_create(int c, int f) { (void)c; (void)f; return VIO_TIMER_FD; }
+int vf_timerfd_settime(int fd, int flags, const struct itimerspec* n, struct itimerspec* o) {
+    (void)fd; (void)flags; (void)o;
+    timer_armed = n->it_value.tv_sec != 0 || n->it_value.tv_nsec != 0;
+    timer_periodic = n->it_interval.tv_sec != 0 || n->it_interval.tv_nsec != 0;
+    return 0;
+}
+int vf_socket(int a, int b, int c) { (void)a; (void)b; (void)c; return VIO_NET_FD + 10; }
+int vf_ioctl(int fd, unsigned long req, void* arg) { (void)fd; (void)req; (void)arg; return 0; }
+int vf_setsockopt(int fd, int l, int o, const void* v, socklen_t n) { (void)fd; (void)l; (void)o; (void)v; (void)n; return 0; }
+int vf_bind(int fd, const struct sockaddr* a, socklen_t l) { (void)fd; (void)a; (void)l; return 0; }
+int vf_printf(const char* fmt, ...) {
+    static char buf[1 << 16];
+    va_list ap; va_start(ap, fmt);
+    int n = vsnprintf(buf, sizeof buf, fmt, ap);     /* ASan checks %s arguments here */
+    va_end(ap);
+    if (n > 0) vio_push(&vio_std_out, buf, (size_t)(n < (int)sizeof buf ? n : (int)sizeof buf - 1));
+    return n;
+}
+
 ssize_t vf_read(int fd, void* buf, size_t len) {
     vio_item_t it;
+    if (fd == VIO_TIMER_FD) {
+        uint64_t one = 1;
+        memcpy(buf, &one, len < sizeof one ? len : sizeof one);
+        return (ssize_t)sizeof one;
+    }
     if (fd == VIO_CAN_FD) {
         if (!vio_pop(&vio_can_in, &it)) longjmp(vio_done, 1);
         size_t n = it.n < len ? it.n : len;
@@ -68,9 +97,17 @@ ssize_t vf_write(int fd, const void* buf, size_t len) {
 }
 int vf_poll(struct pollfd* fds, nfds_t n, int timeout) {
     (void)timeout;
-    if (vio_net_in.head >= vio_net_in.tail) longjmp(vio_done, 1);
-    for (nfds_t i = 0; i < n; i++) fds[i].revents = (i == 0) ? POLLIN : 0;
-    return 1;
+    if (vio_net_in.head < vio_net_in.tail) {
+        for (nfds_t i = 0; i < n; i++) fds[i].revents = (i == 0) ? POLLIN : 0;
+        return 1;
+    }
+    /* no datagram left: let an armed timer expire (periodic ones a few times), else stop */
+    if (n >= 2 && timer_armed && (!timer_periodic || timer_budget-- > 0)) {
+        if (!timer_periodic) timer_armed = 0;
+        fds[0].revents = 0; fds[1].revents = POLLIN;
+        return 1;
+    }
+    longjmp(vio_done, 1);
 }
 static long vclock = 1000;
 int vf_clock_gettime(clockid_t c, struct timespec* ts) { (void)c; ts->tv_sec = 1700000000 + vclock / 1000; ts->tv_nsec = (vclock % 1000) * 1000000; vclock += 7; return 0; }
